@@ -1,0 +1,58 @@
+//go:build verif
+
+package tbtc
+
+import (
+	"github.com/ipfs/go-log"
+
+	"github.com/keep-network/keep-core/pkg/sortition"
+	"github.com/keep-network/keep-core/pkg/tecdsa/dkg"
+)
+
+// Verification hooks for property C42 (thin wrappers, no behaviour of their own).
+
+// VerifC42PreParamsPolicy is a handle on one enoughPreParamsInPoolPolicy.
+type VerifC42PreParamsPolicy struct {
+	policy *enoughPreParamsInPoolPolicy
+}
+
+// VerifC42NewPreParamsPolicy builds the enoughPreParamsInPoolPolicy over a node
+// whose DKG executor wraps the given tECDSA executor, with the given configured
+// pre-parameters pool size.
+func VerifC42NewPreParamsPolicy(
+	executor *dkg.Executor,
+	preParamsPoolSize int,
+) *VerifC42PreParamsPolicy {
+	return &VerifC42PreParamsPolicy{
+		&enoughPreParamsInPoolPolicy{
+			node: &node{
+				dkgExecutor: &dkgExecutor{tecdsaExecutor: executor},
+			},
+			config: Config{PreParamsPoolSize: preParamsPoolSize},
+		},
+	}
+}
+
+// SetPreParamsPoolSize changes the configured pool size the policy compares
+// the current pre-parameters count with.
+func (p *VerifC42PreParamsPolicy) SetPreParamsPoolSize(preParamsPoolSize int) {
+	p.policy.config.PreParamsPoolSize = preParamsPoolSize
+}
+
+// VerifC42JoinPolicy composes the join policy exactly as Initialize does for
+// MonitorPool: beta operator policy and enough pre-parameters in the pool.
+func VerifC42JoinPolicy(
+	chain sortition.Chain,
+	logger log.StandardLogger,
+	p *VerifC42PreParamsPolicy,
+) sortition.JoinPolicy {
+	return sortition.NewConjunctionPolicy(
+		sortition.NewBetaOperatorPolicy(chain, logger),
+		p.policy,
+	)
+}
+
+// Policy returns the wrapped policy as a sortition.JoinPolicy.
+func (p *VerifC42PreParamsPolicy) Policy() sortition.JoinPolicy {
+	return p.policy
+}
